@@ -229,7 +229,7 @@ pub fn hist_spec(id: &str, tier: &str) -> Option<(HistSpec, Info)> {
             },
         ),
         "C11" => {
-            let mut s = mk("C11", &[11], vec!["C11"], Weights::full(), all_types(), budget(tier, (240, 4, 30), (600, 16, 100)), true, false, nt_sub);
+            let mut s = mk("C11", &[11], vec!["C11"], Weights::full(), all_types(), budget(tier, (700, 8, 30), (4000, 16, 100)), true, false, nt_sub);
             s.post = Post::C11;
             (
                 s,
@@ -241,7 +241,7 @@ pub fn hist_spec(id: &str, tier: &str) -> Option<(HistSpec, Info)> {
             )
         }
         "C12" => {
-            let mut s = mk("C12", &[12], vec!["C12"], Weights::full(), all_types(), budget(tier, (120, 4, 24), (300, 16, 60)), true, false, nt_sub);
+            let mut s = mk("C12", &[12], vec!["C12"], Weights::full(), all_types(), budget(tier, (500, 8, 24), (3000, 16, 60)), true, false, nt_sub);
             s.post = Post::C12;
             s.max_uni = 10;
             (
@@ -282,6 +282,8 @@ pub enum Part {
     C14,
     Bfs(crate::bfs::BfsSpec),
     Churn,
+    /// coverage-guided libFuzzer campaign (thorough tier): (target, runs)
+    Fuzz(&'static str, u64),
 }
 
 fn nt_ev(name: &'static str) -> fn(&Events) -> bool {
@@ -371,6 +373,9 @@ pub fn parts(id: &str, tier: &str) -> Option<(Vec<Part>, Info)> {
         if id == "C16" {
             v.push(Part::Churn);
         }
+        if id == "C01" && tier == "thorough" {
+            v.push(Part::Fuzz("ops", 25_000));
+        }
         if matches!(id, "C01" | "C02" | "C03" | "C04" | "C09" | "C10" | "C15" | "C16" | "C20") {
             // engine 2: bounded-exhaustive exploration on (u8,u8) with prefix lengths <= w
             let first = match v.first() {
@@ -424,7 +429,11 @@ pub fn parts(id: &str, tier: &str) -> Option<(Vec<Part>, Info)> {
     };
     match id {
         "C05" => Some((
-            vec![Part::Pair(pair_spec("C05", &[5], vec!["C05"], tier, nt_ev("c05")))],
+            if tier == "thorough" {
+                vec![Part::Pair(pair_spec("C05", &[5], vec!["C05"], tier, nt_ev("c05"))), Part::Fuzz("setops", 25_000)]
+            } else {
+                vec![Part::Pair(pair_spec("C05", &[5], vec!["C05"], tier, nt_ev("c05")))]
+            },
             info("non-trivial = both operands non-empty and (roots differ, or a root is virtual, or an operand tree contains a value-less leftover); distinct by hash of the case; classes.* give the histogram of relative root positions and root kinds"),
         )),
         "C06" => Some((
@@ -537,12 +546,24 @@ pub fn run_check(id: &str, tier: &str, seed: u64, replay: Option<&str>) -> i32 {
             o.is_replay = true;
         }
         None => {
+            let mut parts_desc: Vec<String> = Vec::new();
             for part in &parts {
+                parts_desc.push(match part {
+                    Part::Hist(s) => format!("proptest histories `{}`{}: {} prefix types x {} shards x {} cases, <= {} operations, focus on property oracles {:?}{}", s.label, if s.set_mode { " through the PrefixSet API" } else { "" }, s.types.len(), s.shards, s.cases, s.max_ops, (1..=20).filter(|i| s.focus.has(*i)).collect::<Vec<_>>(), match s.post { Post::None => "", Post::C11 => ", final state: all views for all queries", Post::C12 => ", final state: every view x every query", Post::C20 => ", final state: panic injected at every callback invocation" }),
+                    Part::Pair(s) => format!("proptest view pairs `{}`: {} prefix types x {} shards x {} cases (plus a 7x7 sweep over root pairs per case)", s.id, s.types.len(), s.shards, s.cases),
+                    Part::Bfs(b) => format!("bounded-exhaustive BFS on (u8,u8), prefix lengths <= {}, depth <= {}, state cap {}{}", b.maxlen, b.max_depth, b.state_cap, if b.canonical_only { ", canonical sub-alphabet" } else { "" }),
+                    Part::Churn => "proptest churn cases (working set inserted and removed for many phases)".to_string(),
+                    Part::Fuzz(t, n) => format!("libFuzzer campaign on target `{t}`, {n} runs"),
+                    Part::C17 => "exhaustive (u8,u8) enumeration + proptest triples on 14 types".to_string(),
+                    Part::C19 => "proptest state pairs/triples".to_string(),
+                    Part::C14 => "proptest split forests + threads; generated client programs through rustc; Miri (thorough)".to_string(),
+                });
                 let o2 = match part {
                     Part::Hist(s) => run_hist_check(s, seed),
                     Part::Pair(s) => run_pair_check(s, seed),
                     Part::Bfs(b) => crate::bfs::run_bfs(b),
                     Part::Churn => crate::c16::run_churn_check(tier, seed),
+                    Part::Fuzz(target, runs) => crate::fuzz_entry::run_campaign(id, target, *runs, seed),
                     Part::C17 => crate::c17::run_c17(tier, seed),
                     Part::C19 => crate::c19::run_c19_check(tier, seed),
                     Part::C14 => {
@@ -561,6 +582,7 @@ pub fn run_check(id: &str, tier: &str, seed: u64, replay: Option<&str>) -> i32 {
                     break;
                 }
             }
+            o.extra.insert("parts".into(), serde_json::to_value(&parts_desc).unwrap());
             // release-profile twin (no overflow checks, no debug assertions) for the properties that
             // speak about "debug and release builds"
             let is_child = std::env::var("PTV_PLAIN_CHILD").is_ok();
